@@ -49,6 +49,15 @@ class CleanPass(FunctionPass):
             if block in predecessors:
                 continue
 
+            # Do not remove when a predecessor already jumps to a successor
+            # with phis: the phi cannot have two values for one predecessor
+            if any(
+                successor.phis
+                and any(p in successor.predecessors for p in predecessors)
+                for successor in successors
+            ):
+                continue
+
             # Update successor incoming blocks:
             for successor in successors:
                 successor.replace_incoming(block, predecessors)
